@@ -216,6 +216,19 @@ class P:
         a = self.p_primary()
         while self.peek() == ("op", "."):
             self.eat()
+            if self.peek()[0] == "num" and isinstance(a[1], tuple) and a[1][0] == "tup":
+                k = int(self.eat("num")[1])
+                n = len(a[1][1])
+                if k >= n:
+                    raise Unsupported("tuple field %d of a %d-tuple" % (k, n))
+                # (x0, x1, ..., xn-1) is ((..(x0, x1).., xn-2), xn-1)
+                text = a[0]
+                for _ in range(n - 1 - k):
+                    text = "(fst %s)" % text
+                if k > 0:
+                    text = "(snd %s)" % text
+                a = (text, a[1][1][k])
+                continue
             name = self.eat("id")[1]
             if self.peek() == ("op", "("):
                 self.eat()
@@ -226,6 +239,8 @@ class P:
                     pass
                 elif name == "lerp" and a[1] == "pt" and len(args) == 2:
                     a = ("(plerp %s %s %s)" % (a[0], self.coerce(args[0], "pt")[0], self.coerce(args[1], "Q")[0]), "pt")
+                elif name in ("is_some", "is_none") and isinstance(a[1], tuple) and a[1][0] == "opt" and not args:
+                    a = ("(match %s with Some _ => %s | None => %s end)" % (a[0], "true" if name == "is_some" else "false", "false" if name == "is_some" else "true"), "bool")
                 elif name in ("min", "max") and a[1] == "Q" and len(args) == 1:
                     a = ("(%s %s %s)" % ("Qmin" if name == "min" else "Qmax", a[0], self.coerce(args[0], "Q")[0]), "Q")
                 elif name == "cross" and a[1] == "pt" and len(args) == 1:
